@@ -90,7 +90,22 @@ FanTop == S("fan_top", << Sr("kid_c", <<0, 0>>, FALSE, 0), Ar("kid_a", <<0, 20>>
 Fanout == { << FanTop, Kid("kid_a", 1), Kid("kid_b", 2), Kid("kid_c", 3), Kid("kid_d", 4) >>,
             << Kid("kid_d", 4), Kid("kid_b", 2), FanTop, Kid("kid_a", 1), Kid("kid_c", 3) >>,
             << Kid("kid_a", 1), Kid("kid_b", 2), Kid("kid_c", 3), Kid("kid_d", 4), FanTop >> }
-Libs == Hier \cup RectOrders \cup NonRect \cup Fanout \cup Arrays \cup Labels \cup Mal \cup Mag1 \cup Lenient
+\* Deep random hierarchies (NDeep of them, TLC's RandomElement, reproducible under -seed): four levels, every level with
+\* its own shapes, a reference and an array of the level below in random orientations at random places, structures
+\* listed in a random order.  The expected flattened bags are computed by Flatten like for every other library.
+CONSTANT NDeep
+Places == { <<0, 0>>, <<-7, 5>>, <<13, 2>>, <<40, -30>>, <<-25, -25>> }
+Perms4 == { p \in [1..4 -> 1..4] : \A i, j \in 1..4 : p[i] = p[j] => i = j }
+Deep(i) ==
+  LET o1 == RandomElement(Orient)  o2 == RandomElement(Orient)  o3 == RandomElement(Orient)  o4 == RandomElement(Orient)
+      a1 == RandomElement(Places)  a2 == RandomElement(Places)  a3 == RandomElement(Places)
+      nc == RandomElement(1..3)    nr == RandomElement(1..2)
+      l1 == S("lvl1", << Sr("leaf", a1, o1[1], o1[2]), B(5, 0, RectPts) >>)
+      l2 == S("lvl2", << Ar("lvl1", a2, <<a2[1] + (9 * nc), a2[2]>>, <<a2[1], a2[2] + (11 * nr)>>, nc, nr, o2[1], o2[2]), B(6, 1, Rot(LPts, i % 6)) >>)
+      l3 == S("lvl3", << Sr("lvl2", a3, o3[1], o3[2]), Sr("leaf", a1, o4[1], o4[2]), Pa(7, 0, 2, << <<0, 0>>, <<0, 6>>, <<4, 6>> >>) >>)
+  IN Permute(<< l3, l2, l1, Leaf >>, RandomElement(Perms4))
+DeepLibs == { Deep(i) : i \in 1..NDeep }
+Libs == Hier \cup RectOrders \cup NonRect \cup Fanout \cup DeepLibs \cup Arrays \cup Labels \cup Mal \cup Mag1 \cup Lenient
 Init == c \in Libs
 Next == UNCHANGED c
 Spec == Init /\ [][Next]_c
